@@ -59,7 +59,8 @@ def gen(rng, tier):
     N = 120 if tier == "quick" else 1200
     for _ in range(N):
         alpha = rng.choice([1, 1, 0])
-        sym = AA if alpha == 0 else (NTX if rng.random() < 0.35 else NT)
+        # soft-masked (lower-case) protein residues in a third of the protein cases
+        sym = (AA + "arndlkmfx" if rng.random() < 0.35 else AA) if alpha == 0 else (NTX if rng.random() < 0.35 else NT)
         n = rng.randint(1, 5)
         L = rng.randint(1, 12)
         gaps = "-" * rng.choice([0, 0, 3, 8])
